@@ -186,6 +186,11 @@ def run_canaries(unit, prop):
         raise Undecided(f"canary extraction of unit {unit}: {e}")
     res = verus_run.run(rs, multiple_errors=200)
     failed_lines = set()
+    hard = [d["message"][:300] for d in res["diagnostics"] if verus_run.classify(d["message"]) == "other" and d.get("level", "error") == "error" and not d["message"].startswith("aborting")]
+    if hard and not any("assertion failed" in d["message"] for d in res["diagnostics"]):
+        # the canary copy does not even compile (e.g. the template calls a lemma that lives in a `nocanary` include): that says
+        # nothing about the canaries
+        raise Undecided(f"canary copy of unit {unit} was not verified (compile error, not an obligation): {hard[0]}")
     for d in res["diagnostics"]:
         if "assertion failed" in d["message"]:
             for s in d["spans"]:
@@ -227,7 +232,7 @@ def find_witness(prop, seed, budget):
                 return {"kind": "rt_bulk", "mode": "notified", "runtime": rtm,
                         "output": (p.stdout[-1200:] + "\n" + "\n".join(p.stderr.splitlines()[:3]))}, ""
         return None, f"every schedule of <= {depth} set / subscribe / poll operations (<= 3 subscribers) and the 4 one-shot scenarios behaved as the property says under both runtimes"
-    if kind == ["rt_bulk"]:
+    if "rt_bulk" in kind:
         # real Unix socket pairs under both runtimes (replay_rt): a large pipelined flush must arrive intact
         crate = os.path.join(HERE, "replay_rt")
         b = subprocess.run(["cargo", "build", "--offline", "--quiet"], cwd=crate, capture_output=True, text=True,
@@ -240,8 +245,10 @@ def find_witness(prop, seed, budget):
                 p = subprocess.run([exe_rt, mode, rtm], capture_output=True, text=True, timeout=600)
                 if p.returncode == 1:
                     return {"kind": "rt_bulk", "mode": mode, "runtime": rtm, "output": p.stdout[-1500:]}, ""
-        return None, ("the bulk transfer, the abandoned sends of frames below the atomic-write size and the dropped-write-half scenario over real socket pairs "
-                      "arrived intact under both runtimes")
+        if kind == ["rt_bulk"]:
+            return None, ("the bulk transfer, the abandoned sends of frames below the atomic-write size and the dropped-write-half scenario over real socket pairs "
+                          "arrived intact under both runtimes")
+        kind = [k for k in kind if k != "rt_bulk"]     # ... and go on with the in-memory harnesses of the connection layer
     exe, err = replay_bin()
     if not exe:
         return None, "replay crate does not build against the current tree: " + err[-800:]
